@@ -561,3 +561,140 @@ Proof.
     + eapply parse_cases_NoDup; eauto.
   - inversion H; subst. split; [discriminate|]. constructor; [intros []|constructor].
 Qed.
+
+(* ------------------------------------------------------------------------- *)
+(* distinct enumerators: refuted in general (F5), true on letter-boundary names *)
+(* ------------------------------------------------------------------------- *)
+
+Lemma NoDup_app_intro : forall {A} (l1 l2 : list A),
+  NoDup l1 -> NoDup l2 -> (forall a, In a l1 -> ~ In a l2) -> NoDup (l1 ++ l2).
+Proof.
+  intros A. induction l1 as [|x t IH]; intros l2 H1 H2 Hd; [exact H2|].
+  inversion H1 as [|? ? Hnotin H1']; subst. cbn. constructor.
+  - intros Hin. apply in_app_or in Hin. destruct Hin as [Hin|Hin]; [contradiction|].
+    apply (Hd x (or_introl eq_refl) Hin).
+  - apply IH; auto. intros a Ha. apply Hd. right; exact Ha.
+Qed.
+
+Lemma NoDup_flat_map : forall {A B} (f : A -> list B) (l : list A),
+  NoDup l -> (forall x, In x l -> NoDup (f x)) ->
+  (forall x y a, In x l -> In y l -> In a (f x) -> In a (f y) -> x = y) ->
+  NoDup (flat_map f l).
+Proof.
+  intros A B f. induction l as [|x t IH]; intros Hnd Hf Hdisj; [constructor|].
+  inversion Hnd as [|? ? Hnotin Hnd']; subst. cbn [flat_map]. apply NoDup_app_intro.
+  - apply Hf. left; reflexivity.
+  - apply IH; auto.
+    + intros y Hy. apply Hf. right; exact Hy.
+    + intros y z a Hy Hz. apply Hdisj; right; assumption.
+  - intros a Ha Hin. apply in_flat_map in Hin. destruct Hin as [y [Hy Hay]].
+    assert (x = y) by (eapply Hdisj; eauto; [left; reflexivity|right; exact Hy]).
+    subst. contradiction.
+Qed.
+
+Lemma enumerator_names_flat_map : forall d,
+  map fst (enumerators d) =
+  flat_map (fun ev => map (fun c => convert_case c (ev_name ev)) (ev_cases ev)) (ed_values d).
+Proof.
+  intros [vals s b]. unfold enumerators, emission. cbn [ed_values]. rewrite map_map. cbn [fst snd].
+  induction vals as [|ev t IH]; [reflexivity|].
+  cbn [flat_map]. rewrite map_app, IH, map_map. reflexivity.
+Qed.
+
+Lemma convert_case_same_name : forall c1 c2 s,
+  letter_boundaries s = true -> convert_case c1 s = convert_case c2 s -> c1 = c2.
+Proof.
+  intros [|] [|] s Hs H; auto; exfalso.
+  - exact (shouty_ne_kcamel_lem s s Hs H).
+  - exact (shouty_ne_kcamel_lem s s Hs (eq_sym H)).
+Qed.
+
+Lemma enumerators_distinct_partial_lem : forall d,
+  accepted d = true ->
+  (forall ev, In ev (ed_values d) -> letter_boundaries (ev_name ev) = true /\ NoDup (ev_cases ev)) ->
+  enumerators_distinct d = true.
+Proof.
+  intros d Ha Hg. destruct (accepted_parts d Ha) as [_ [_ [Hnd _]]].
+  unfold enumerators_distinct. apply strings_distinct_NoDup. rewrite enumerator_names_flat_map.
+  apply NoDup_flat_map.
+  - eapply NoDup_map_inv. exact Hnd.
+  - intros ev Hev. destruct (Hg ev Hev) as [Hl Hc].
+    clear - Hl Hc. induction (ev_cases ev) as [|c t IH]; [constructor|].
+    inversion Hc as [|? ? Hnotin Hc']; subst. cbn. constructor; [|apply IH; exact Hc'].
+    intros Hin. apply in_map_iff in Hin. destruct Hin as [c' [Heq Hc'in]].
+    apply (convert_case_same_name c' c _ Hl) in Heq. subst. contradiction.
+  - intros x y a Hx Hy Hax Hay. apply in_map_iff in Hax, Hay.
+    destruct Hax as [c1 [E1 _]], Hay as [c2 [E2 _]]. subst a.
+    destruct (Hg x Hx) as [Lx _], (Hg y Hy) as [Ly _].
+    assert (ev_name x = ev_name y) as Hn.
+    { destruct c1, c2.
+      - exact (eq_sym E2).
+      - exfalso. exact (shouty_ne_kcamel_lem _ _ Lx (eq_sym E2)).
+      - exfalso. exact (shouty_ne_kcamel_lem _ _ Ly E2).
+      - symmetry. apply (convert_case_injective_lem KCamel); auto. }
+    eapply (NoDup_map_inj_on ev_name); eauto.
+Qed.
+
+(* witnesses *)
+Definition f5_enum : edecl :=
+  mk_edecl [mk_evalue "AB_1" 1 [KCamel]; mk_evalue "AB1" 2 [KCamel]] false 64.
+
+Lemma enumerators_distinct_refuted_lem :
+  exists d, accepted d = true /\ enumerators_distinct d = false /\
+            exists a b, In a (ed_values d) /\ In b (ed_values d) /\ ev_name a <> ev_name b /\
+                        convert_case KCamel (ev_name a) = convert_case KCamel (ev_name b).
+Proof.
+  exists f5_enum. split; [reflexivity|]. split; [reflexivity|].
+  exists (mk_evalue "AB_1" 1 [KCamel]), (mk_evalue "AB1" 2 [KCamel]).
+  repeat split; cbn; auto. discriminate.
+Qed.
+
+(* field_accepts_in_range: refuted for a signed enum in a narrow field (F1) *)
+Lemma field_accepts_in_range_refuted_lem :
+  exists t k bw v,
+    In (ct_bits t) [8; 16; 32; 64] /\ 1 <= k <= ct_bits t /\ bw = least_width k /\
+    in_range (ctype_range t) v = true /\ in_range (field_range (ct_signed t) k) v = true /\
+    could_write t k bw v = false.
+Proof.
+  exists (mk_ctype true 8), 4, 8, (-1). cbn. repeat split; auto; lia.
+Qed.
+
+Lemma field_read_refuted_lem :
+  exists t k raw,
+    In (ct_bits t) [8; 16; 32; 64] /\ 1 <= k <= ct_bits t /\ 0 <= raw < 2 ^ k /\
+    in_range (field_range (ct_signed t) k) (read_raw t raw) = false.
+Proof.
+  exists (mk_ctype true 8), 4, 15. cbn. repeat split; auto; lia.
+Qed.
+
+Lemma field_accepts_in_range_partial_lem : forall t k bw v,
+  1 <= k -> k <= ct_bits t -> k <= bw ->
+  (ct_signed t = false \/ (k = bw /\ k = ct_bits t)) ->
+  in_range (ctype_range t) v = true ->
+  could_write t k bw v = in_range (field_range (ct_signed t) k) v /\
+  (could_write t k bw v = true -> read_raw t (write_raw k bw v) = v).
+Proof.
+  intros [s w] k bw v Hk Hkw Hkb Hg Hv. cbn [ct_signed ct_bits] in *.
+  apply in_range_iff in Hv. unfold ctype_range, range_of in Hv. cbn [ct_signed ct_bits] in Hv.
+  destruct Hg as [->|[-> ->]].
+  - cbn [fst snd] in Hv. apply field_unsigned_lem; auto.
+  - destruct s.
+    + cbn [fst snd] in Hv. destruct (field_signed_full_lem w v Hk Hv) as [H1 H2]. split; [|intros _; exact H2].
+      rewrite H1. symmetry. apply in_range_iff. unfold field_range, range_of. cbn [fst snd]. exact Hv.
+    + cbn [fst snd] in Hv. apply field_unsigned_lem; auto; lia.
+Qed.
+
+(* non-vacuity: an accepted enum with duplicates, negatives, both cases *)
+Definition sample_enum : edecl :=
+  mk_edecl [mk_evalue "NEG_ONE" (-1) [Shouty; KCamel]; mk_evalue "ZERO_VALUE" 0 [KCamel];
+            mk_evalue "ALSO_ZERO" 0 [Shouty]; mk_evalue "BIG_VALUE" 127 [Shouty]] true 8.
+
+Lemma sample_enum_ok :
+  accepted sample_enum = true /\ enumerators_distinct sample_enum = true /\
+  underlying_type (ed_bits sample_enum) (ed_signed sample_enum) = Some (mk_ctype true 8) /\
+  enumerators sample_enum = [("NEG_ONE"%string, -1); ("kNegOne"%string, -1); ("kZeroValue"%string, 0);
+                             ("ALSO_ZERO"%string, 0); ("BIG_VALUE"%string, 127)] /\
+  from_name sample_enum "ALSO_ZERO" = Some 0 /\ from_name sample_enum "kZeroValue" = None /\
+  to_name sample_enum 0 = Some "ZERO_VALUE"%string /\ to_name sample_enum 1 = None /\
+  is_known sample_enum (-1) = true /\ is_known sample_enum 5 = false.
+Proof. vm_compute. repeat split; reflexivity. Qed.
